@@ -119,6 +119,12 @@ const callFormsFile = `{namespace pr}
 [{$m.a}|{$m.s}|{$m.extra ?: 'no-extra'}]
 {/if}
 {/template}
+/** @param? m */
+{template .dirforms}
+{let $v: $m?.s ?: 'a <b> & c' /}
+{$v|id|escapeHtml}{$v|noAutoescape|truncate:3}{$v|id|insertWordBreaks:3}{$v|insertWordBreaks:2}{$v|changeNewlineToBr}{$v|changeNewlineToBr|id}
+{$v|escapeHtml|noAutoescape}{$v|truncate:4|id}{$v|escapeUri|id}{$v|id|escapeJsString}{$v|json}{$v|noAutoescape|changeNewlineToBr|insertWordBreaks:5}{$v|id}{$v}
+{/template}
 /**
  * @param? a
  * @param? s
@@ -247,10 +253,10 @@ func c08History(r *fw.Rand, tier, config string, nops int) (files []srcFile, pro
 	if config == "custom" {
 		names = append(names, "cust.t")
 	}
-	names = append(names, "pr.callforms", "pr.callforms")
+	names = append(names, "pr.callforms", "pr.callforms", "pr.dirforms")
 	for k := 0; k < nops; k++ {
 		if r.P(1, 4) {
-			ops = append(ops, c08Op{kind: "js", file: r.Intn(4), es6: r.Bool(), msgs: r.P(1, 3), viaGen: r.P(1, 4)})
+			ops = append(ops, c08Op{kind: "js", file: r.Intn(64), es6: r.Bool(), msgs: r.P(1, 3), viaGen: r.P(1, 4)})
 			continue
 		}
 		name := prog.Entry
